@@ -45,11 +45,18 @@ pub fn cross_mode(on: bool) {
 }
 
 static ABORT_PROP: Mutex<String> = Mutex::new(String::new());
+static ABORT_IS_VERDICT: std::sync::atomic::AtomicBool = std::sync::atomic::AtomicBool::new(false);
 
 extern "C" fn on_abort(_sig: libc::c_int) {
     // the subject aborted the process (e.g. an allocation failure turned into abort()): for the
     // property about totality that is a verdict; name the cases that were in flight
     let prop = ABORT_PROP.try_lock().map(|p| p.clone()).unwrap_or_default();
+    if !ABORT_IS_VERDICT.load(std::sync::atomic::Ordering::SeqCst) {
+        // not the totality property: an abort is a machinery problem, unless a verdict was reached before
+        eprintln!("MACHINERY {prop}: the process was aborted (SIGABRT)");
+        let code = if mdv_core::report::emergency_flush() { 1 } else { 2 };
+        unsafe { libc::_exit(code) }
+    }
     let cases: Vec<Value> = SLOTS.try_lock().ok().and_then(|g| g.as_ref().map(|m| m.values().map(|(_, v)| v.clone()).collect())).unwrap_or_default();
     let dumps: Vec<Value> = DUMPS.try_lock().ok().and_then(|g| g.as_ref().map(|m| m.values().map(|(_, v)| v.clone()).collect())).unwrap_or_default();
     let dir = format!("/verif/replays/{prop}");
@@ -65,7 +72,8 @@ extern "C" fn on_abort(_sig: libc::c_int) {
 }
 
 /// For the totality property: an abort of the process during a dump request is a violation, not a crash of the harness.
-pub fn abort_is_violation(prop: &str) {
+pub fn abort_is_violation(prop: &str, verdict: bool) {
+    ABORT_IS_VERDICT.store(verdict, std::sync::atomic::Ordering::SeqCst);
     if let Ok(mut g) = ABORT_PROP.lock() {
         *g = prop.to_string();
     }
